@@ -174,7 +174,16 @@ Ltac fwd_in HI :=
            | _ => pose proof (I1 _ HI _ _ _ _ H H0)
            end
          end.
-Ltac fin := simpl in *; eauto; try congruence; try tauto; try lia.
+Ltac fwd_seen :=
+  repeat match goal with
+         | H : In (?w, ?i) (seen ?s) |- _ =>
+           lazymatch goal with
+           | _ : In w (map fst (seen s)) |- _ => fail
+           | _ => assert (In w (map fst (seen s))) by (change w with (fst (w, i)); apply in_map; exact H)
+           end
+         end.
+Ltac split_or := repeat match goal with H : _ \/ _ |- _ => destruct H end.
+Ltac fin := simpl in *; try (intro; split_or); split_or; inj_all; fwd_seen; simpl in *; eauto; try congruence; try tauto; try lia.
 Ltac bf HI := try fwd_actor HI; dinv HI; constructor; simp; intros; eqb_cases; inj_all; simpl in *; fwd_in HI;
   repeat (match goal with Hpc : pc _ ?i = _, H : context [pc _ ?i] |- _ => rewrite Hpc in H end); fin.
 
@@ -189,10 +198,10 @@ Proof.
   - (* APublish *) inv_step H; free_pc.
   - (* ABook *) inv_step H; free_pc.
   - (* AInsert *) admit.
-  - (* ASend *) admit.
+  - (* ASend *) inv_step H; bf HI. Show.
   - (* ASendCtx *) admit.
-  - (* AUnsub *) admit.
-  - (* AUnsubSend *) inv_step H; bf HI. Show.
+  - (* AUnsub *) inv_step H; bf HI. Show.
+  - (* AUnsubSend *) inv_step H; bf HI.
   - (* ARemove *) admit.
   - (* AClose *) inv_step H. pose proof (inv_shut _ _ _ _ _ HI Heqp) as HI1.
     destruct (shut_frame _ _ _ _ _ Heqp) as (Ep & Ec & Es & Ew & _).
